@@ -466,6 +466,22 @@ pub fn run(cfg: &Cfg) -> Report {
                 one_value(t, &mut gb, &algos, &shape, &val);
             }
         }
+        // (a2) values whose LAST write is an empty block (empty str / bytes), at lengths on the heapless menu
+        for &n in &[1usize, 2, 3, 4, 5, 8, 9, 10, 12, 16, 24, 32] {
+            i += 1;
+            if !t.mine(i) || t.cfg.expired() {
+                continue;
+            }
+            for last in [Shape::Str, Shape::Bytes] {
+                // n - 1 leading bytes, then a 1-byte length prefix (0) and an empty payload
+                let mut fields: Vec<Shape> = (0..n - 1).map(|_| Shape::U8).collect();
+                fields.push(last.clone());
+                let mut vals: Vec<Val> = (0..n - 1).map(|_| Val::U8(1 + (t.rng.next() % 255) as u8)).collect();
+                vals.push(if last == Shape::Str { Val::Str(String::new()) } else { Val::Bytes(Vec::new()) });
+                t.st.count("values_ending_in_empty_block");
+                one_value(t, &mut gb, &algos, &Shape::Tuple(fields), &Val::Tuple(vals));
+            }
+        }
         // (b) ordinary values from the shared generator
         let n = t.cfg.scale(3, 400, 6000);
         for _ in 0..n {
@@ -507,6 +523,7 @@ pub fn run(cfg: &Cfg) -> Report {
     rep.floor("heapless_one_short", 5);
     rep.floor("slice_success", 100);
     rep.floor("slice_buffer_full", 100);
+    rep.floor("values_ending_in_empty_block", 4);
     rep
 }
 
